@@ -80,13 +80,13 @@ def fixed_param_templates():
 def main(tier, seed):
     quick = tier == "quick"
     items = fixed_param_templates()
-    for it in C.generated(seed, 30 if quick else 100, profile={"params": True}, ngoals=4, prefix="sens"):
+    for it in C.generated(seed, 20 if quick else 100, profile={"params": True}, ngoals=4, prefix="sens"):
         if "p" in it["params"]:
             it["dparam"] = "p"
             if len(items) < (9 if quick else 40):
                 it["want_extra"] = ["sens_cli"]      # the printed output of the action itself, for some of them
             items.append(it)
-    for it in C.generated(seed + 7, 12 if quick else 40, profile={"params": False, "sym_init": True}, ngoals=4, prefix="sensi"):
+    for it in C.generated(seed + 7, 8 if quick else 40, profile={"params": False, "sym_init": True}, ngoals=4, prefix="sensi"):
         inits = [p for p in it["params"] if p.endswith("0")]
         if inits:
             it["dparam"] = inits[0]
